@@ -158,6 +158,15 @@ def scenarios(ctx):
                 for end in ("silence", "eof"):
                     scs.append({"cbs": appsim.ALL, "ssl": ssl, "runs": [[["E", evs + ENDS[end]]]], "horizon": 60 * TPS,
                                 "tag": f"presplit{cut}:{first[0]}{''.join(k for k, _ in nxt)}|{end}"})
+    # … and messages whose FINAL fragment is empty (all of the payload in the first frame): delivered, and the messages that
+    # follow are delivered as well
+    for evs in ([[100, 0, "T", "616263", "ef"], [100, 0, "t", "6f6b"]],
+                [[100, 0, "B", "0001", "ef"], [50, 0, "p", "70"], [100, 0, "T", "68c3a9", "ef"], [100, 0, "b", "ff"]],
+                [[100, 0, "T", "61", "ef"], [0, 1, "t", "62"], [100, 0, "B", "00", "ef"]]):
+        for end, tail in (("eof", ENDS["eof"]), ("close", [[40, 0, "c", "03e8"]]), ("silence", [])):
+            for ssl in (False, True):
+                scs.append({"cbs": appsim.ALL, "ssl": ssl, "runs": [[["E", evs + tail]]], "horizon": 60 * TPS,
+                            "tag": f"emptyfinal{len(evs)}|{end}"})
     # the constructor's callbacks given positionally, in the documented order (3 = header, on_open, on_reconnect ... 14 = all)
     for npos in (3, 5, 6, 8, 14):
         for word in (["t", "p", "T", "q", "b"], ["U", "B", "p", "q"]):
